@@ -723,7 +723,7 @@ def replay(path: str) -> int:
         check_heights(_Ck(), None, G.parse_paren(obj["tree"]), obj["dates"], obj["kind"], obj.get("k"), obj["x"],
                       obj["batched"], fails)
         print(f"{obj['kind']} node-height transform on {obj['tree']} dates {obj['dates']} at {obj['x']}")
-    elif typ in ("scale-ratio", "scale-other", "inverse-sweep"):
+    elif typ in ("scale-ratio", "scale-other", "inverse-sweep", "option-scale"):
         for sig, what in SC.replay(obj):
             fails.append((sig, what))
         print(f"scale case {obj.get('label', obj.get('name'))}: {obj.get('tree', '')} dates {obj.get('dates')} x {obj.get('x')}")
